@@ -558,3 +558,50 @@ for _nb in (4, 8):
         _g.timeout = 3600
     GROUPS["C04"] = GROUPS["C04"] + _t
     GROUPS["C10"] = GROUPS["C10"] + [g for g in _t if ".par." in g.name]
+
+
+# ====================================================================== C10: sequential and multi-threaded step agree at a node
+def agree_group(nb, tier="quick"):
+    init = "".join("    GN[%d].idx = nondet_size_t(); GN[%d].distance = nondet_double(); GE[%d] = nondet_double(); GQ[%d] = nondet_double();\n" % (k, k, k, k)
+                   for k in range(nb))
+    greq = " && ".join(x.strip()[len("__CPROVER_requires("):-1] for x in ghost_requires(nb).splitlines() if x.strip().startswith("__CPROVER_requires("))
+    h = r"""
+#include <stdlib.h>
+size_t nondet_size_t(void); _Bool nondet_bool(void); double nondet_double(void);
+/* C10: the sequential loop body and the lambda's loop body, run on the same node and the same inputs (same neighbour list, same
+ * slope values), produce the same receiver and the same distance -- including the tie-break, whatever it is. */
+void h_agree(void)
+{
+    size_t gsize = nondet_size_t();
+    __CPROVER_assume(0 < gsize && gsize <= ((size_t) 1 << 40));
+    GSIZE = gsize; G = nondet_size_t(); GN_cnt = nondet_size_t(); GR = nondet_size_t(); GS = 0; GS2 = 0; GE_G = nondet_double();
+%(init)s
+    size_t *m_receivers = malloc(gsize * REC_BYTES), *p_receivers = malloc(gsize * REC_BYTES);
+    double *m_receivers_distance = malloc(gsize * REC_BYTES), *p_receivers_distance = malloc(gsize * REC_BYTES);
+    size_t *m_donors = malloc(gsize * DON_BYTES), *m_donors_count = malloc(gsize * 8);
+    _Bool *m_mask = malloc(gsize), *base_level = malloc(gsize); uint8_t *nodes_status = malloc(gsize); double *elevation = malloc(gsize * 8);
+    __CPROVER_assume(m_receivers && p_receivers && m_receivers_distance && p_receivers_distance && m_donors && m_donors_count && m_mask && base_level && nodes_status && elevation);
+    _Bool m_mask_initialized = nondet_bool();
+    __CPROVER_assume(%(greq)s);
+    __CPROVER_assume(m_donors_count[G] < DON_W);
+    for (int k = 0; k < FSL_NBMAX; ++k) if ((size_t) k < GN_cnt) __CPROVER_assume(m_donors_count[GN[k].idx] < DON_W);
+    router_seq_step(G, gsize, m_receivers, m_receivers_distance, m_donors, m_donors_count, m_mask, m_mask_initialized, base_level, nodes_status, elevation);
+    router_par_step(G, gsize, p_receivers, p_receivers_distance, m_donors, m_donors_count, m_mask, m_mask_initialized, base_level, nodes_status, elevation);
+    __CPROVER_assert(m_receivers[G * REC_W] == p_receivers[G * REC_W], "C10 sequential and multi-threaded router choose the same receiver");
+    __CPROVER_assert(SAME_D(m_receivers_distance[G * REC_W], p_receivers_distance[G * REC_W]), "C10 sequential and multi-threaded router store the same distance");
+    __CPROVER_assert(0, "canary: postcondition point reachable");
+}
+""" % dict(init=init, greq=greq)
+    return Group(
+        name="router.agree.nb%d" % nb, units=[is_masked, is_base_level, make_seq_step(nb), make_par_step(nb)], harness=h, entry="h_agree",
+        replace=["grid_neighbors", "fsl_slope_abs"], unwindset={("router_seq_step", 0): nb + 1, ("router_par_step", 0): nb + 1},
+        unwind=nb + 2, defines=defines(nb), backend="sat", timeout=900, min_obligations=2, tier=tier, replay="replay/routing.cpp",
+        no_checks=ALL_CHECKS_R,
+        clause="the sequential and the multi-threaded loop body compute the same receiver and distance at a node from the same inputs "
+               "(relational, tie-break included); <= %d neighbours" % nb)
+
+
+ALL_CHECKS_R = ["--bounds-check", "--pointer-check", "--div-by-zero-check", "--signed-overflow-check",
+                "--pointer-overflow-check", "--conversion-check", "--undefined-shift-check"]
+_AG = [agree_group(2)]
+GROUPS["C10"] = GROUPS["C10"] + _AG
